@@ -54,8 +54,6 @@ pub struct CoroutinePool<'p> {
     keep_alive_time: AtomicU64,
     //阻滞器
     blocker: Arc<CondvarBlocker>,
-    //the local task queue is single-producer, submitters take turns
-    submit_lock: Mutex<()>,
     //正在等待结果的
     waits: DashMap<u64, Arc<(Mutex<bool>, Condvar)>>,
     //任务执行结果
@@ -144,7 +142,6 @@ impl<'p> CoroutinePool<'p> {
             .local_queue(),
             keep_alive_time: AtomicU64::new(keep_alive_time),
             blocker: Arc::default(),
-            submit_lock: Mutex::new(()),
             results: DashMap::new(),
             waits: DashMap::default(),
             no_waits: DashSet::default(),
@@ -278,15 +275,7 @@ impl<'p> CoroutinePool<'p> {
     /// Allow multiple threads to concurrently submit task to the pool,
     /// but only allow one thread to execute scheduling.
     pub(crate) fn submit_raw_task(&self, task: Task<'p>) {
-        {
-            // tasks are submitted from arbitrary threads, but the local queue
-            // tolerates only one producer at a time
-            let _guard = self
-                .submit_lock
-                .lock()
-                .unwrap_or_else(std::sync::PoisonError::into_inner);
-            self.task_queue.push(task);
-        }
+        self.task_queue.push(task);
         self.blocker.notify();
     }
 
